@@ -6,7 +6,8 @@
    Only statements, `exact`, and Print Assumptions. *)
 From Coq Require Import List NArith ZArith Bool.
 From Coq.Strings Require Import Byte.
-From GM Require Import Codec.Packet Misc.KeepAlive Misc.KeepAliveProofs.
+From GM Require Import Codec.Packet Misc.KeepAlive Misc.KeepAliveProofs Misc.Engine Misc.EngineProofs
+  Misc.Dispatch Misc.DispatchProofs Misc.PktMisc Misc.PktMiscProofs.
 Import ListNotations.
 Open Scope N_scope.
 
@@ -106,4 +107,211 @@ Example KA_nonvacuous :
   read_timeout 60000000000 61 = 90000000000%Z /\ read_timeout 500000000 7 = 750000000%Z /\
   read_timeout 3 1 = 4%Z /\ eff_max (-5) = 300 * second /\ eff_max 0 < 2 ^ 53 /\
   connect_settings 0 10 0 (-1) 3 0 = Settings 300000000000 15000000000 10 10 3 30000000000 20.
+Proof. repeat split; vm_compute; reflexivity. Qed.
+
+(* ------------------------------------------------------------------ 2. engine life cycle
+   `erun g e_init es = Some s`: the event trace es (what recording conns, servers and the harness
+   saw) is one the monitor of Misc/Engine.v accepts.  Each theorem says that every accepted trace
+   satisfies a clause; the clauses are scanners over the event list alone (and, extracted, judge
+   the traces observed on the real engine). *)
+
+(* once Close has returned no connection is configured (no client is started) and no accept loop does anything *)
+Theorem ENG_nothing_after_close : forall g es s, erun g e_init es = Some s -> after_close_ok es = true.
+Proof. exact after_close_sound. Qed.
+Print Assumptions ENG_nothing_after_close.
+
+(* a Handle call made after Close returned never returns true (it closes the connection: the only
+   conn events the monitor allows for it are Close and the return of false) *)
+Theorem ENG_handle_after_close : forall g es s, erun g e_init es = Some s -> handle_after_close_ok es = true.
+Proof. exact handle_after_close_sound. Qed.
+Print Assumptions ENG_handle_after_close.
+
+(* the first Receive on a connection comes after SetReadLimit(ReadLimit), SetMaxWriteDelay(MaxWriteDelay),
+   SetReadTimeout(ConnectTimeout), in this order, with the engine's values *)
+Theorem ENG_settings_before_receive : forall g es s, erun g e_init es = Some s ->
+  settings_before_recv g (fun _ => 0) es = true.
+Proof. exact settings_before_recv_sound. Qed.
+Print Assumptions ENG_settings_before_receive.
+
+(* an accept loop stops at its first Accept error: no further Accept on that server, OnError at most once *)
+Theorem ENG_accept_stops_at_error : forall g es s, erun g e_init es = Some s -> stops_at_error es = true.
+Proof. exact stops_at_error_sound. Qed.
+Print Assumptions ENG_accept_stops_at_error.
+
+(* with a handler installed the error is reported before the engine comes to rest or Close returns *)
+Theorem ENG_error_reported : forall g es s, erun g e_init es = Some s -> error_reported g es = true.
+Proof. exact error_reported_sound. Qed.
+Print Assumptions ENG_error_reported.
+
+(* OnError is called only for a server whose Accept failed *)
+Theorem ENG_onerror_justified : forall g es s, erun g e_init es = Some s ->
+  onerror_justified (fun _ => false) es = true.
+Proof. exact onerror_justified_sound. Qed.
+Print Assumptions ENG_onerror_justified.
+
+(* "Close returns" is false of the faithful model, twice over (both reproduced on the real engine):
+   (a) Close on an engine whose Accept was never called waits for ever (tomb.Wait with no goroutine);
+       only a later Accept call releases it *)
+Definition ENG_close_returns : Prop := forall g es s, erun g e_init es = Some s -> is_closing s = true ->
+  exists es' s', Forall not_accept_call es' /\ erun g s es' = Some s' /\ is_closed s' = true.
+Theorem ENG_close_without_accept_refuted : forall g,
+  exists s, erun g e_init [ECloseCall; EQuiet] = Some s /\ is_closing s = true /\
+    forall es s', Forall not_accept_call es -> erun g s es = Some s' -> is_closing s' = true.
+Proof. exact close_hangs_without_accept. Qed.
+Print Assumptions ENG_close_without_accept_refuted.
+
+(* (b) an accept loop that has taken a connection from its server but not yet called Handle when Close
+       takes the mutex: the connection is never configured nor closed and Close never returns,
+       whatever happens afterwards *)
+Theorem ENG_close_deadlock_refuted : forall g,
+  exists s, erun g e_init [EAcceptCall 0; ESrvAccept 0; EQuiet; ESrvConn 0 1; ECloseCall] = Some s /\
+    forall es s', erun g s es = Some s' -> is_closing s' = true /\ e_conns s' 1 = COffered.
+Proof. exact close_deadlock. Qed.
+Print Assumptions ENG_close_deadlock_refuted.
+
+(* non-vacuity: the documented shutdown order is accepted and ends closed and dead; bad traces are rejected *)
+Example ENG_nonvacuous :
+  match erun (Cfg 8388608 10000000 10000000000 true) e_init
+    [EAcceptCall 0; ESrvAccept 0; EQuiet; ESrvConn 0 1; ELimit 1 8388608; EDelay 1 10000000; ETimeout 1 10000000000;
+     ESrvAccept 0; ERecv 1; EQuiet; ESrvErr 0; EOnError 0; EQuiet; ECloseCall; ECloseRet; EQuiet;
+     EHandleCall 3; ECClose 3; EHandleRet 3 false; EQuiet] with
+  | Some s => is_closed s && dead s | None => false end = true /\
+  erun (Cfg 1 2 3 true) e_init [EHandleCall 1; ELimit 1 1; EDelay 1 2; ERecv 1] = None.
+Proof. split; vm_compute; reflexivity. Qed.
+
+(* ------------------------------------------------------------------ 3. scheme dispatch of Dial / Launch *)
+
+(* the switch is exactly the table tcp, mqtt -> net; tls, ssl, mqtts -> tls; ws -> websocket; wss -> websocket over tls *)
+Theorem DSP_table : forall s k, dial_kind s = Some k <-> In (s, k) scheme_table.
+Proof. exact dial_kind_table. Qed.
+Print Assumptions DSP_table.
+
+(* each supported scheme has exactly one kind, the seven names are pairwise different, all are
+   well-formed lower-case schemes (so none of them can end as a parse error) *)
+Theorem DSP_one_kind : forall s k1 k2, In (s, k1) scheme_table -> In (s, k2) scheme_table -> k1 = k2.
+Proof. exact table_functional. Qed.
+Print Assumptions DSP_one_kind.
+
+Theorem DSP_names_distinct : NoDup (map fst scheme_table).
+Proof. exact table_names_distinct. Qed.
+Print Assumptions DSP_names_distinct.
+
+Theorem DSP_names_wellformed : forall s k, In (s, k) scheme_table -> scheme_ok s = true /\ lower s = s.
+Proof. exact table_names_ok. Qed.
+Print Assumptions DSP_names_wellformed.
+
+(* total, with three outcomes that are characterised exactly: parse error iff the scheme is malformed,
+   a kind iff the lower-cased scheme is in the table, unsupported otherwise (and for an address without scheme) *)
+Theorem DSP_parse_error : forall s, dial_outcome (Some s) = OParseError <-> scheme_ok s = false.
+Proof. exact dial_parse_error. Qed.
+Print Assumptions DSP_parse_error.
+
+Theorem DSP_supported : forall s k,
+  dial_outcome (Some s) = OKind k <-> scheme_ok s = true /\ In (lower s, k) scheme_table.
+Proof. exact dial_supported. Qed.
+Print Assumptions DSP_supported.
+
+Theorem DSP_unsupported : forall s,
+  dial_outcome (Some s) = OUnsupported <-> scheme_ok s = true /\ forall k, ~ In (lower s, k) scheme_table.
+Proof. exact dial_unsupported. Qed.
+Print Assumptions DSP_unsupported.
+
+(* the case the scheme is written in does not matter *)
+Theorem DSP_case_insensitive : forall kind s, dispatch kind (Some (lower s)) = dispatch kind (Some s).
+Proof. exact dispatch_case_insensitive. Qed.
+Print Assumptions DSP_case_insensitive.
+
+(* Launch and Dial (two separate switch statements) agree on every address *)
+Theorem DSP_launch_agrees : forall w, launch_outcome w = dial_outcome w.
+Proof. exact launch_outcome_agrees. Qed.
+Print Assumptions DSP_launch_agrees.
+
+(* default ports as documented: 1883, 8883, 80, 443; a configured port replaces exactly its own kind's default *)
+Theorem DSP_default_ports :
+  default_port no_ports KNet = 1883 /\ default_port no_ports KTls = 8883 /\
+  default_port no_ports KWs = 80 /\ default_port no_ports KWss = 443.
+Proof. exact default_ports_documented. Qed.
+Print Assumptions DSP_default_ports.
+
+Theorem DSP_configured_ports : forall a b c d,
+  let cfg := Ports (Some a) (Some b) (Some c) (Some d) in
+  default_port cfg KNet = a /\ default_port cfg KTls = b /\ default_port cfg KWs = c /\ default_port cfg KWss = d.
+Proof. exact default_ports_configured. Qed.
+Print Assumptions DSP_configured_ports.
+
+(* the tie's observation (which of the four reference servers a dial reaches, and as what) identifies the kind *)
+Theorem DSP_observation_identifies_kind : forall k1 k2, (forall srv, reaches k1 srv = reaches k2 srv) -> k1 = k2.
+Proof. exact reaches_identifies. Qed.
+Print Assumptions DSP_observation_identifies_kind.
+
+Example DSP_nonvacuous :
+  dial_outcome (Some ["M"; "q"; "T"; "t"; "S"]%byte) = OKind KTls /\
+  dial_outcome (Some ["h"; "t"; "t"; "p"]%byte) = OUnsupported /\
+  dial_outcome (Some ["1"; "w"; "s"]%byte) = OParseError /\ dial_outcome (Some []) = OParseError /\
+  dial_outcome None = OUnsupported /\ reaches KTls KWss = Some KTls /\ reaches KWs KWss = None.
+Proof. repeat split; vm_compute; reflexivity. Qed.
+
+(* ------------------------------------------------------------------ 4. small functions of package packet *)
+
+(* QOS.Successful: exactly the three delivery levels; the SUBACK failure code 0x80 is not successful *)
+Theorem PKT_qos_successful : forall q, qos_successful q = true <-> q <= 2.
+Proof. exact qos_successful_iff. Qed.
+Print Assumptions PKT_qos_successful.
+
+(* ID.Valid: every id but 0 *)
+Theorem PKT_id_valid : forall id, id_valid id = true <-> id <> 0.
+Proof. exact id_valid_iff. Qed.
+Print Assumptions PKT_id_valid.
+
+(* ConnackCode: Valid iff <= 5; String says "invalid connack code" exactly for the invalid codes;
+   the six valid codes have six different texts *)
+Theorem PKT_connack_valid : forall c, connack_valid c = true <-> c <= 5.
+Proof. exact connack_valid_iff. Qed.
+Print Assumptions PKT_connack_valid.
+
+Theorem PKT_connack_string_agrees : forall c, connack_string c = connack_invalid_string <-> connack_valid c = false.
+Proof. exact connack_string_valid_iff. Qed.
+Print Assumptions PKT_connack_string_agrees.
+
+Theorem PKT_connack_string_injective : forall c d, c <= 5 -> d <= 5 -> connack_string c = connack_string d -> c = d.
+Proof. exact connack_string_inj. Qed.
+Print Assumptions PKT_connack_string_injective.
+
+(* Type: Valid iff it is one of the 14 type codes of Codec/Packet.v; String says "Unknown" exactly for the
+   others, names the type otherwise, and different types have different names *)
+Theorem PKT_type_valid : forall t, type_valid t = true <-> exists p, type_of_code t = Some p.
+Proof. exact type_valid_iff. Qed.
+Print Assumptions PKT_type_valid.
+
+Theorem PKT_type_string_agrees : forall t, type_string t = type_unknown <-> type_valid t = false.
+Proof. exact type_string_valid_iff. Qed.
+Print Assumptions PKT_type_string_agrees.
+
+Theorem PKT_type_string_of_code : forall p, type_string (type_code p) = type_name p.
+Proof. exact type_string_code. Qed.
+Print Assumptions PKT_type_string_of_code.
+
+Theorem PKT_type_string_injective : forall t u, type_valid t = true -> type_valid u = true ->
+  type_string t = type_string u -> t = u.
+Proof. exact type_string_inj. Qed.
+Print Assumptions PKT_type_string_injective.
+
+(* Message.Copy yields an equal message.  (That the copy shares no payload storage with the original is NOT
+   provided by the Go code — `return &m` copies the slice header only — see the check's observation.) *)
+Theorem PKT_copy_equal : forall m, message_copy m = m /\ message_eqb (message_copy m) m = true.
+Proof. exact (fun m => conj (message_copy_eq m) (message_copy_eqb m)). Qed.
+Print Assumptions PKT_copy_equal.
+
+(* Message.String is inside the model exactly for topics made of ASCII bytes *)
+Theorem PKT_string_defined : forall m,
+  (exists x, message_string m = Some x) <-> forallb (fun b => Byte.to_N b <? 128) (m_topic m) = true.
+Proof. exact message_string_defined. Qed.
+Print Assumptions PKT_string_defined.
+
+Example PKT_nonvacuous :
+  qos_successful 2 = true /\ qos_successful 128 = false /\ id_valid 65535 = true /\ connack_valid 5 = true /\
+  type_string 8 = ["S"; "u"; "b"; "s"; "c"; "r"; "i"; "b"; "e"]%byte /\ type_string 0 = type_unknown /\ type_string 15 = type_unknown /\
+  message_string (Msg ["a"; """"; "010"]%byte ["255"; "001"]%byte 2 true) =
+    Some ["<";"M";"e";"s";"s";"a";"g";"e";" ";"T";"o";"p";"i";"c";"=";"""";"a";"\";"""";"\";"n";"""";" ";"Q";"O";"S";"=";"2";" ";
+          "R";"e";"t";"a";"i";"n";"=";"t";"r";"u";"e";" ";"P";"a";"y";"l";"o";"a";"d";"=";"f";"f";"0";"1";">"]%byte.
 Proof. repeat split; vm_compute; reflexivity. Qed.
